@@ -300,6 +300,9 @@ var devNull *os.File
 
 var stateDump map[string]bool
 
+// wantStacks: dump goroutine stacks of stuck executions (replay mode only; expensive)
+var wantStacks bool
+
 // RunExecution runs the scenario under the given choice prefix (choice 0 afterwards).
 func RunExecution(t *testing.T, sc *Scenario, prefix []int) (w *World) {
 	w = &World{sc: sc, byWrapper: map[*command.CmdWrapper]*FProc{}, launches: map[string]int{}, auxCalls: map[string]int{},
@@ -721,7 +724,9 @@ func (w *World) classifyStuck(threads []*vrt.Thread, cutoff bool) {
 			w.Blocked = append(w.Blocked, fmt.Sprintf("t%d[%s] %s:%s", t.ID, t.Label, op.Kind, op.Tag))
 		}
 	}
-	w.Extra["stacks"] = bubbleStacks()
+	if wantStacks {
+		w.Extra["stacks"] = bubbleStacks()
+	}
 }
 
 // cleanup ends an execution whose processes are still alive at the horizon (or
